@@ -146,11 +146,18 @@ def main():
     ap.add_argument("--rerun", default="", help="result file: re-run the mutants in it that match --select")
     ap.add_argument("--select", default="", help="python expression over a result row r, e.g. \"r['check_exit']==3\"")
     ap.add_argument("--verbose", action="store_true")
+    ap.add_argument("--seed", type=int, default=0)
+    ap.add_argument("--skip", default="", help="result file(s), comma separated: mutants already in them are not run again")
     a = ap.parse_args()
     global VERBOSE
     VERBOSE = a.verbose
     props = [p for p in a.props.split(",") if p] or [f"C{i:02d}" for i in range(1, 21)]
-    rnd = random.Random(0)
+    rnd = random.Random(a.seed)
+    done = set()
+    for f in [x for x in a.skip.split(',') if x]:
+        for l in open(f):
+            r = json.loads(l)
+            done.add((r['prop'], r['target'], r['op'], r['line']))
     jobs = []
     RER = []
     if a.rerun:
@@ -178,7 +185,7 @@ def main():
             fn = find_function(tree, qual)
             if fn is None:
                 continue
-            ms = list(mutants_of(fn))
+            ms = [m for m in mutants_of(fn) if (p, tgt, m[0], m[1]) not in done]
             rnd.shuffle(ms)
             if a.rerun:
                 want = {(r["op"], r["line"]) for r in RER if r["prop"] == p and r["target"] == tgt}
